@@ -9,6 +9,7 @@ import sys
 import time
 import struct
 try:
+    import importlib.machinery
     import importlib.util
 
     try:
